@@ -52,18 +52,33 @@ Proof. exact (delete_historic_np (cfg_rows bf) h before). Qed.
 Variable plan : list fault.
 Hypothesis err_only : forall tr (rq : req row), plan_outcome plan tr rq <> OGone.
 
-Theorem C09_retained_versions_keep_their_nodes b (h : rhandle) g cs blocks :
-  spec oeq plan b (keep_reachable (cfg_rows bf) h g cs blocks)
+Theorem C09_retained_versions_keep_their_nodes b (h : rhandle) g cs before blocks :
+  spec oeq plan b (keep_reachable (cfg_rows bf) h g cs before blocks)
        (fun res =>
           forall x, In x res ->
             In x blocks /\
             h_link h <> Some x /\
-            (forall kv, In kv g -> find (fun kv' => fst kv' =? fst kv) g = Some kv -> mem (fst kv) cs = false ->
-                        v_link (snd kv) <> Some x) /\
-            (forall n v, ver_in b [PCur] n = Some v ->
-                         (find (fun kv' => fst kv' =? n) g = None \/ mem n cs = true) ->
+            (forall n v, kept_version b g cs (o_names (b_cur b)) (o_names (b_merged b)) before n = Some v ->
+                         (In n (map fst g) \/ o_get n (b_cur b) <> None \/ o_get n (b_merged b) <> None) ->
                          v_link v <> Some x)).
-Proof. exact (keep_reachable_spec (cfg_rows bf) oeq plan err_only b h g cs blocks). Qed.
+Proof. exact (keep_reachable_spec (cfg_rows bf) oeq plan err_only b h g cs before blocks). Qed.
+
+(* who is kept: versions of the history that stay, every version under current/, and superseded
+   versions under merged/ that the cutoff retains *)
+Theorem C09_kept_history_version (b : bucket row) g cs cur mrg before (kv : name * vobj) :
+  find (fun kv' => fst kv' =? fst kv) g = Some kv -> mem (fst kv) cs = false ->
+  kept_version b g cs cur mrg before (fst kv) = Some (snd kv).
+Proof. exact (kept_graph_version b g cs cur mrg before kv). Qed.
+Theorem C09_kept_current_version (b : bucket row) g cs mrg before n v :
+  ver_in b [PCur] n = Some v ->
+  (find (fun kv' => fst kv' =? n) g = None \/ mem n cs = true) ->
+  kept_version b g cs (o_names (b_cur b)) mrg before n = Some v.
+Proof. exact (kept_current_version oeq b g cs mrg before n v). Qed.
+Theorem C09_kept_retained_superseded_version (b : bucket row) g cs before n v :
+  find (fun kv' => fst kv' =? n) g = None -> o_get n (b_cur b) = None -> mem n cs = false ->
+  ver_in b [PMerged] n = Some v -> retained_by_cutoff before v = true ->
+  kept_version b g cs (o_names (b_cur b)) (o_names (b_merged b)) before n = Some v.
+Proof. exact (kept_retained_merged_version oeq b g cs before n v). Qed.
 End C09.
 
 (* non-vacuity: a two-row table (one live row, one row deleted at 50) vacuumed with cutoff 60
@@ -84,4 +99,7 @@ Print Assumptions C09_full_scan_returns_the_visible_rows.
 Print Assumptions C09_vacuum_commit_loses_nothing.
 Print Assumptions C09_history_deletion_never_puts.
 Print Assumptions C09_retained_versions_keep_their_nodes.
+Print Assumptions C09_kept_history_version.
+Print Assumptions C09_kept_current_version.
+Print Assumptions C09_kept_retained_superseded_version.
 Print Assumptions C09_witness.
